@@ -21,5 +21,6 @@ SimSpec == Init /\ [][SimNext]_vars
 LinksDef == (1 :> <<>> @@ 2 :> <<1>> @@ 3 :> <<2, 1>> @@ 4 :> <<2, 1>>)
 HeadsA == (1 :> <<3>> @@ 2 :> <<2, 4>> @@ 3 :> <<3, 4>>)
 HeadsB == (1 :> <<2, 3>> @@ 2 :> <<4, 3, 2>> @@ 3 :> <<3, 4>>)
+HeadsC == (1 :> <<3, 6>> @@ 2 :> <<4, 3, 2>> @@ 3 :> <<3, 4>>)
 LinksB == (1 :> <<>> @@ 2 :> <<>> @@ 3 :> <<1>> @@ 4 :> <<1, 5>> @@ 5 :> <<>>)
 =============================================================================
